@@ -7,7 +7,7 @@ Driver engine for C18 (convertFilterExpr outside helper bodies).
 ann  := (a CV 0|1)        CV := n | (s HEX) | (i INT) | big | o
 expr := (lit ann 0|1 UNQ) | (id ann NAME) | (paren ann e) | (sel ann e NAME) | (idx ann e e) | (call ann f e*)
       | (un ann OP e) | (bin ann OP e e) | (other ann)          UNQ := n | (u HEX)
-op: `c18conv expr` → `ok <filter>` (filter S-expression of Drv/IR.lean) | `err` | `panic kind`
+ops: `c18conv expr`, `c18conv_asis expr` → `ok <filter>` (filter S-expression of Drv/IR.lean) | `err` | `panic kind`
 -/
 namespace Drv.ConvE
 open Proto Conv
@@ -45,12 +45,16 @@ partial def dec : SExp → Option CExpr
   | .list [.atom "other", a] => do pure (.other (← decAnn a))
   | _ => none
 
+def run (ar : Bool) (fs : List String) : Option String := do
+  let e ← dec (← parseSExp (" ".intercalate fs))
+  pure (match convertG ar e with
+    | .ok r => "ok " ++ Drv.IRPrint.encFilter r
+    | .err => "err"
+    | .panic p => "panic " ++ panicName p)
+
+/-- `c18conv` = the converter with the arity check of fixes/c06-predicate-arity.diff, `c18conv_asis` = without it -/
 def handle : List String → Option String
-  | "c18conv" :: fs => do
-    let e ← dec (← parseSExp (" ".intercalate fs))
-    pure (match convert e with
-      | .ok r => "ok " ++ Drv.IRPrint.encFilter r
-      | .err => "err"
-      | .panic p => "panic " ++ panicName p)
+  | "c18conv" :: fs => run true fs
+  | "c18conv_asis" :: fs => run false fs
   | _ => none
 end Drv.ConvE
